@@ -3,10 +3,11 @@
 // oracle and a send/receive balance oracle.
 //
 // op line (describes the whole distributed case, every rank parses all of it):
-//   c06 P=<np> B=<buffer items> mode=<f|v> f=<items per index, fixed mode> ty=<l|p|c|v|n> dirs=<letters> [ctor=<m|M|i|I|c|a>] : seg;seg;...
+//   c06 P=<np> B=<buffer items> mode=<f|v> f=<items per index, fixed mode> ty=<l|p|c|t|v|n> dirs=<letters> [ctor=<m|M|i|I|c|a>] : seg;seg;...
 //   dirs   one letter per communicate call on the same communicator object: f forward, b backward with a handle of the
 //          case's mode; F forward, B backward with a handle of the *other* mode (fixed <-> variable)
-//   ty     item type: l long, p POD struct (generic MPITraits), c std::pair<char,double>, v FieldVector<double,3>,
+//   ty     item type: l long, p POD struct (generic MPITraits), c std::pair<char,double> (padding between the members),
+//          t std::pair<double,char> (padding behind the members), v FieldVector<double,3>,
 //          n std::pair<int,std::pair<short,double>>  (the MPITraits specialisations of mpitraits.hh)
 //   ctor   how the communicator object is made: m (comm,map,B)   M (comm,map) default buffer (needs B=32768)
 //          i (Interface,B)   I (Interface) default buffer   c copy-constructed, original destroyed   a copy-assigned over
@@ -130,7 +131,7 @@ static Case parseCase(const std::string& line) {
     c.fixed = v == "f";
     if (!parseKV(hw[4], "f", v)) { c.err = "f"; return c; }
     c.f = std::stol(v);
-    if (!parseKV(hw[5], "ty", v) || v.size() != 1 || std::string("lpcvn").find(v[0]) == std::string::npos) { c.err = "ty"; return c; }
+    if (!parseKV(hw[5], "ty", v) || v.size() != 1 || std::string("lpctvn").find(v[0]) == std::string::npos) { c.err = "ty"; return c; }
     c.ty = v[0];
     if (!parseKV(hw[6], "dirs", v) || v.empty()) { c.err = "dirs"; return c; }
     c.dirs = v;
@@ -191,6 +192,7 @@ struct PodItem {  // goes through the generic MPITraits<T> (sizeof(T) bytes)
   short tag;
 };
 typedef std::pair<char, double> PairItem;                     // MPITraits<std::pair<T1,T2>> with padding between the members
+typedef std::pair<double, char> TailItem;                     // … with padding behind the members (needs the resized extent)
 typedef Dune::FieldVector<double, 3> FvItem;                  // MPITraits<FieldVector<K,n>>
 typedef std::pair<int, std::pair<short, double>> NestedItem;  // a pair type built from another pair type
 
@@ -208,6 +210,14 @@ template <> struct ItemCodec<PairItem> {
   static long value(const PairItem& x, bool& damaged) {
     long v = (long)x.second;
     if ((double)v != x.second || x.first != (char)(1 + v % 101)) damaged = true;
+    return v;
+  }
+};
+template <> struct ItemCodec<TailItem> {
+  static TailItem make(long v) { return TailItem((double)v, (char)(1 + v % 101)); }
+  static long value(const TailItem& x, bool& damaged) {
+    long v = (long)x.first;
+    if ((double)v != x.first || x.second != (char)(1 + v % 101)) damaged = true;
     return v;
   }
 };
@@ -528,6 +538,7 @@ static Result exec(const std::string& line) {
     case 'l': return runCase<long>(c);
     case 'p': return runCase<PodItem>(c);
     case 'c': return runCase<PairItem>(c);
+    case 't': return runCase<TailItem>(c);
     case 'v': return runCase<FvItem>(c);
     default: return runCase<NestedItem>(c);
   }
@@ -569,7 +580,7 @@ static std::string gen(Rng& rng, long, const Args& a) {
     return f;
   };
   long f = needFixed ? pickF() : 1;
-  static const std::vector<std::string> tys = {"l", "l", "l", "p", "p", "c", "c", "v", "v", "n"};
+  static const std::vector<std::string> tys = {"l", "l", "l", "p", "p", "c", "c", "t", "v", "v", "n", "n"};
   std::string ty = rng.pick(tys);
   std::string ctor = "m";
   if (big) { if (rng.coin(3, 5)) ctor = rng.coin() ? "M" : "I"; }
